@@ -2,9 +2,12 @@ import PycsepVerif.Soft64
 import PycsepVerif.RealOps
 import PycsepVerif.Model.Time
 import PycsepVerif.Model.TimeExt
+import PycsepVerif.Model.Strptime
 import PycsepVerif.Model.JsonRecords
 import PycsepVerif.Model.FloatText
 import PycsepVerif.Model.ReaderText
+import PycsepVerif.Model.PairedRanks
+import PycsepVerif.Model.FloatSum
 /-
   PyPrelude — the meaning of every numpy / stdlib operation the source translator (harness/py2lean.py) accepts,
   at each type it accepts it. PART OF THE TRUSTED BASE: `GeneratedSrc.lean` is a composition of these operations in
@@ -230,10 +233,21 @@ def knownFormats : List Time.Format :=
     list is not modelled (`Err.other`). A parsed `%z` offset is discarded by `.replace`. -/
 def strptimeUtc (s fmt : List Char) : Except Err Datetime :=
   match knownFormats.find? (fun f => fmtText f == fmt) with
-  | none => .error .other
+  | none =>
+    -- any other format: CPython's `_strptime` at character level as modelled by the C15 owner (`Time.strptimeStr`: the
+    -- directives' regular expressions with their alternatives in order, backtracking, then `datetime(...)`'s checks)
+    match Time.strptimeStr fmt s with
+    | some f => .ok { us := Time.ofFields f, tz := .utc }
+    | none => .error .valueError
   | some f => match Time.strptimeWith f s with
     | some us => .ok { us := us, tz := .utc }
     | none => .error .valueError
+
+/-- `try: x = a / except (E1, E2): …; raise E`: the exceptions of the named classes become `E`, every other one passes -/
+def reraise {β : Type} (a : Except Err β) (frm : List Err) (to : Err) : Except Err β :=
+  match a with
+  | .ok v => .ok v
+  | .error e => if frm.contains e then .error to else .error e
 
 /-- `x % 1` of a finite float64: exact -/
 def fmod1 (x : Rat) : Rat := x - ((x.floor : Int) : Rat)
@@ -275,6 +289,10 @@ def rOfInt (n : Int) : α := if 0 ≤ n then ofNat n.toNat else neg (ofNat (-n).
 /-- `numpy.sum` / builtin `sum` over an array of the real layer: the models' left fold from 0 (numpy's pairwise order is not
     modelled: the real layer is compared to 1e-12, and the theorems are over ℝ where the order is irrelevant) -/
 def rsum (l : List α) : α := RealOps.sum l
+/-- `abs(x)` of a real -/
+def rabs (x : α) : α := if RealOps.lt x zero then neg x else x
+/-- a float64 value (a rational) as the real number it denotes -/
+def rOfRat (q : Rat) : α := div (rOfInt q.num) (ofNat q.den)
 /-- `x ** 2`, `numpy.power(x, 2)`, `numpy.square(x)` -/
 def rsq (x : α) : α := mul x x
 /-- `numpy.log(x)` with `log 0 = -inf` -/
@@ -339,6 +357,27 @@ end Real
     Used for code that moves values between attributes, dictionaries and lists without computing with them
     (`to_dict` / `from_dict`). A dict is the list of its entries in iteration order; keys are unique in Python, lookups
     return the first entry with the key. -/
+
+/-! ## the Wilcoxon signed-rank core (`_w_test_ndarray`): ranks, masks, float sums, tie counts -/
+
+/-- `numpy.compress(numpy.not_equal(d, 0), d, axis=-1)`: the non-zero entries, in order -/
+def compress_ne0 (d : List Rat) : List Rat := d.filter (fun a => a != 0)
+
+/-- `scipy.stats.rankdata(x)` (method 'average') of a float64 array: SciPy's algorithm (stable sort, position of the first
+    element of every run of equal values plus half the run length; `PairedTests.rankdata2`, doubled) — exact halves -/
+def rankdata (l : List Rat) : List Rat := (PairedTests.rankdata2 l).map (fun (n : Nat) => (n : Rat) / 2)
+
+/-- `b * x` for a numpy bool and a finite float64: `True * x = x`, `False * x = 0` (both exact; the sign of a zero is not
+    represented in this layer) -/
+def bool_mul (b : Bool) (x : Rat) : Rat := if b then x else 0
+
+/-- `numpy.sum(a)` / `numpy.sum(a, axis=0)` of a contiguous 1-D float64 array: numpy's pairwise summation
+    (`FloatSum.pairwiseSum`; 64 levels of halving cover every array) -/
+def np_sum_f64 (l : List Rat) : Rat := FloatSum.pairwiseSum 64 l
+
+/-- `numpy.unique(r, return_counts=True)[1]`: how often each distinct value occurs, in ascending order of the values -/
+def unique_counts (r : List Rat) : List Int :=
+  ((r.mergeSort (fun a b => decide (a ≤ b))).eraseDups).map (fun v => ((r.count v : Nat) : Int))
 
 /-! ## cells of a text record (csv rows): subscripts that can fail, `float('…')`, `int('…')` -/
 
